@@ -168,6 +168,35 @@ def rtOK (o : Opts) : Nat → GoType → GoVal → Bool
     | .struct _ _ fs, .struct vs => structOK o fs && fieldsRT o (rtOK o n) fs vs
     | _, _ => false
 
+def fieldsTyped (chk : GoType → GoVal → Bool) : List (FieldHdr × GoType) → List GoVal → Bool
+  | [], [] => true
+  | (_, t) :: fr, x :: vr => chk t x && fieldsTyped chk fr vr
+  | _, _ => false
+
+/-- `v` is a value of type `t` (fuel `vf` suffices) and nothing more: what the FULL-strength statement
+of the title clause of C16 quantifies over -/
+def hasType : Nat → GoType → GoVal → Bool
+  | 0, _, _ => false
+  | n + 1, t, v =>
+    match t, v with
+    | .bool, .bool _ => true
+    | .int k, .int i => wrapInt k i == i
+    | .float _, .flt _ => true
+    | .str, .str _ => true
+    | .bytes, .nilBytes => true
+    | .bytes, .bytes _ => true
+    | .iface, .nilIface => true
+    | .iface, .iface dt dv => hasType n dt dv
+    | .ptr _, .nilPtr => true
+    | .ptr e, .ptr x => hasType n e x
+    | .slice _, .nilSlice => true
+    | .slice e, .slice xs => xs.all (hasType n e)
+    | .array k e, .arr xs => xs.length == k && xs.all (hasType n e)
+    | .map _, .nilMap => true
+    | .map e, .map kvs => kvs.all fun kv => hasType n e kv.2
+    | .struct _ _ fs, .struct vs => fieldsTyped (hasType n) fs vs
+    | _, _ => false
+
 /-- With `UseTags` the tag builder of the code as it is gives an untagged field its exact name whatever
 `KeyExact` says (`Dev.tagExact`, finding `C15-usetags-keyexact`): the code behaves as under
 `effOpts o`. -/
